@@ -251,6 +251,31 @@ func SendStruct(ch chan struct{}) {
 	}
 }
 
+// timeoutFlag marks a receive that sits in a select next to a timer / context case: the
+// environment may let the timeout fire at any moment while the receive is pending.
+const timeoutFlag = int64(1) << 40
+
+// RecvStructTimeout replaces `select { case <-ch: A; case <-timer.C / time.After(..) / ctx.Done(): B }`.
+// It returns false when the explorer lets the timeout fire (one tick deviation).
+func RecvStructTimeout(ch chan struct{}) bool {
+	t := Cur()
+	if t < 0 {
+		NoteForeign()
+		<-ch
+		return true
+	}
+	a := chanAddr(ch)
+	v := Point(t, OpRecv, a, int64(cap(ch))|timeoutFlag)
+	if v == 3 {
+		return false
+	}
+	<-ch
+	if v == 1 {
+		Point(t, OpResume, a, 0)
+	}
+	return true
+}
+
 // TrySendStruct replaces `select { case ch <- struct{}{}: ...; default: ... }`.
 func TrySendStruct(ch chan struct{}) bool {
 	t := Cur()
@@ -595,7 +620,7 @@ func (r *run) enabled(i int) bool {
 		l := r.lock(m.res)
 		return l.owner < 0 && l.announced < 0
 	case OpSendWait:
-		return r.chClose[m.res] || (m.arg > 0 && int64(r.chCount[m.res]) < m.arg)
+		return r.chClose[m.res] || (m.arg&^timeoutFlag > 0 && int64(r.chCount[m.res]) < m.arg&^timeoutFlag)
 	case OpRecvWait:
 		return r.chClose[m.res] || r.chCount[m.res] > 0
 	}
@@ -612,9 +637,10 @@ func (r *run) partner(self int, res uintptr, op Op) int {
 }
 
 type alt struct {
-	tid  int
-	tick int64
-	cost Cost
+	tid     int
+	tick    int64
+	timeout bool
+	cost    Cost
 }
 
 func (r *run) loop() {
@@ -640,7 +666,13 @@ func (r *run) loop() {
 				en = append(en, i)
 			}
 		}
-		if len(en) == 0 {
+		hasTimeout := false
+		for _, t := range r.thr {
+			if t.state == 1 && (t.pending.op == OpRecv || t.pending.op == OpRecvWait) && t.pending.arg&timeoutFlag != 0 {
+				hasTimeout = true
+			}
+		}
+		if len(en) == 0 && !hasTimeout {
 			if alive {
 				r.x.Deadlock = true
 				r.x.WaitInfo = r.waitInfo()
@@ -679,6 +711,17 @@ func (r *run) loop() {
 				alts = append(alts, a)
 			}
 		}
+		// a pending receive guarded by a timeout may be ended by the environment at any moment
+		for i, t := range r.thr {
+			if t.state == 1 && (t.pending.op == OpRecv || t.pending.op == OpRecvWait) && t.pending.arg&timeoutFlag != 0 {
+				a := alt{tid: i, timeout: true}
+				a.cost.Tick = 1
+				if lastEn && i != last {
+					a.cost.Preempt = 1
+				}
+				alts = append(alts, a)
+			}
+		}
 		costs := make([]Cost, len(alts))
 		for i := range alts {
 			costs[i] = alts[i].cost
@@ -699,12 +742,25 @@ func (r *run) loop() {
 			if a.tick != 0 {
 				s = fmt.Sprintf("tick+%d; ", a.tick) + s
 			}
+			if a.timeout {
+				s = fmt.Sprintf("t%d timeout fires (pending %s)", a.tid, m.op)
+			}
 			return s
 		})
 		a := alts[idx]
 		if a.tick != 0 {
 			r.clock += a.tick
 			r.x.TicksUsed++
+		}
+		if a.timeout {
+			r.step++
+			r.x.TicksUsed++
+			r.thr[a.tid].state = 0
+			r.running++
+			batonGrant(a.tid, 3)
+			r.collect()
+			last = a.tid
+			continue
 		}
 		r.fire(a.tid)
 		last = a.tid
